@@ -1,7 +1,8 @@
 (* Correspondence for C09: the harness prints a history of 1-3 incarnations of the real
    spawn_wal_actor (FsyncPolicy::Always) on its scripted WalStore, separated by crashes:
    the configuration and, per incarnation, what the preceding crash spared, the schedule
-   observed (order in which the actor handled the writes, where it flushed) and the log
+   observed (order in which the actor handled the writes, where it flushed, where it
+   handled a Shutdown message that a separate task sent while writers were in flight) and the log
    (every I/O call with its outcome and every ack, in program order; cut at the crash);
    and, for a sample of crash instants j (= after j I/O calls) of the last incarnation,
    what the real recover_all_entries returned on the crashed image and which writes had
@@ -31,6 +32,8 @@ Notation IO := LIo.
 Notation AK := LAck.
 Notation SW := SWrite.
 Notation SF := SFlush.
+Notation SD := SShutdown.
+Notation DN := LDown.
 
 (* one incarnation: what the preceding crash kept of every file (file sequence, number of
    items; [] for the first), the schedule, and the log up to the instant at which this
@@ -62,6 +65,7 @@ Definition log_item_eqb (a b : log_item) : bool :=
   match a, b with
   | LIo c o, LIo d p => call_eqb c d && outcome_eqb o p
   | LAck w x, LAck v y => N.eqb w v && Bool.eqb x y
+  | LDown, LDown => true
   | _, _ => false
   end.
 Fixpoint list_eqb {A} (eqb : A -> A -> bool) (l m : list A) : bool :=
@@ -79,7 +83,7 @@ Fixpoint insertN (x : N) (l : list N) : list N :=
 Definition sortN (l : list N) : list N := fold_right insertN [] l.
 
 Definition outcomes_of (l : list log_item) : list outcome :=
-  flat_map (fun x => match x with LIo _ o => [o] | LAck _ _ => [] end) l.
+  flat_map (fun x => match x with LIo _ o => [o] | _ => [] end) l.
 
 Definition keep_of (l : list (N * N)) (s : N) : nat :=
   match find (fun p => N.eqb (fst p) s) l with
